@@ -664,3 +664,20 @@ Definition qrelease (once : bool) (t : bool) (s : qslot) : bool * qslot :=
   else (true, if once then (if qs_once s then s else {| qs_active := (qs_active s - 1)%Z; qs_once := true |})
               else {| qs_active := (qs_active s - 1)%Z; qs_once := qs_once s |}).
 Definition qsinit : qslot := {| qs_active := 1; qs_once := false |}.
+
+(* ------------------------------------------------------------------------------------------------ *)
+(* R. ReadExact / ReadExactZeroCopy on a polling reader                                              *)
+(* ------------------------------------------------------------------------------------------------ *)
+(* stream_processor_read.go: `for totalRead < length { select { case <-ctx.Done(): return ...; default: }; n, err := reader.Read(...);
+   ...; if n == 0 { continue } }`.  The reader is a polling transport: (0, nil) while idle, not unblocked by closing the
+   processor.  `per_iter = true` (the repository): the context is tested on every iteration; `per_iter = false`: once,
+   before the loop.  RCl is Close cancelling the processor's context. *)
+Record rdsh := { rd_cancel : bool }.
+Inductive rdpc := RChk | RRd | RRet | RCl | RClDone.
+Definition rdstep (per_iter : bool) (t : rdpc) (s : rdsh) : rdpc * rdsh :=
+  match t with
+  | RChk => if rd_cancel s then (RRet, s) else (RRd, s)
+  | RRd => (if per_iter then RChk else RRd, s)          (* Read returned (0, nil): continue *)
+  | RCl => (RClDone, {| rd_cancel := true |})
+  | RRet | RClDone => (t, s)
+  end.
